@@ -6,6 +6,7 @@ from ..deck import Deck, render_expr, holds, choose_tree, demorgan, strip_compl,
 from ..runner import Scn, verdict, sha, Vacuous
 
 ID = 'C01'
+DECORATE = True
 LEVEL = 'model_checking'
 RULE = ('E1 choice-tree enumeration of decks (expression trees with <=k leaves over signed plane '
         'literals, macrobody and facet literals, #( ) at inner nodes, #n of earlier cells, '
